@@ -1,2 +1,320 @@
-use serde_json::Value;
-pub fn recompute_name_clash(_case: &Value) -> bool { false }
+//! C19 — the aeon-to-bnet converter preserves the family of update functions.
+
+use crate::cli;
+use crate::nets::{Expr, NetSpec, Reg, Sign};
+use crate::report::{Report, Violation};
+use biodivine_lib_param_bn::{BinaryOp, BooleanNetwork, FnUpdate};
+use rayon::prelude::*;
+use serde_json::{json, Value};
+use std::collections::{BTreeMap, BTreeSet};
+
+/// Names the converter may generate for fresh inputs: `<symbol>_<bits>` with |bits| = arity of the
+/// symbol, and `<variable>_<bits>` with |bits| = number of regulators of a variable with an implicit
+/// function. A network has a *name clash* if one of its variables / symbols carries such a name.
+pub fn generated_names(spec: &NetSpec) -> BTreeSet<String> {
+    let mut out = BTreeSet::new();
+    let mut add = |prefix: &str, arity: usize| {
+        for code in 0..(1usize << arity) {
+            let bits: String = (0..arity).map(|i| if code >> i & 1 == 1 { '1' } else { '0' }).collect();
+            out.insert(format!("{prefix}_{bits}"));
+        }
+    };
+    for (name, ar) in spec.symbols() {
+        add(&name, ar);
+    }
+    for (v, ar) in spec.implicit_vars() {
+        if ar > 0 {
+            add(&spec.vars[v], ar);
+        }
+    }
+    out
+}
+
+pub fn has_name_clash(spec: &NetSpec) -> bool {
+    let gen = generated_names(spec);
+    spec.vars.iter().any(|v| gen.contains(v)) || spec.symbols().keys().any(|s| gen.contains(s))
+}
+
+pub fn recompute_name_clash(case: &Value) -> bool {
+    match serde_json::from_value::<NetSpec>(case["net"].clone()) {
+        Ok(spec) => has_name_clash(&spec),
+        Err(_) => false,
+    }
+}
+
+fn eval_fn(f: &FnUpdate, bn: &BooleanNetwork, val: &BTreeMap<String, bool>) -> Result<bool, String> {
+    Ok(match f {
+        FnUpdate::Const(b) => *b,
+        FnUpdate::Var(v) => *val.get(bn.get_variable_name(*v)).ok_or(format!("no value for {}", bn.get_variable_name(*v)))?,
+        FnUpdate::Param(p, args) => {
+            if !args.is_empty() {
+                return Err("output still contains a function application".into());
+            }
+            let n = bn.get_parameter(*p).get_name();
+            *val.get(n).ok_or(format!("no value for {n}"))?
+        }
+        FnUpdate::Not(x) => !eval_fn(x, bn, val)?,
+        FnUpdate::Binary(op, l, r) => {
+            let (a, b) = (eval_fn(l, bn, val)?, eval_fn(r, bn, val)?);
+            match op {
+                BinaryOp::And => a && b,
+                BinaryOp::Or => a || b,
+                BinaryOp::Xor => a != b,
+                BinaryOp::Iff => a == b,
+                BinaryOp::Imp => !a || b,
+            }
+        }
+    })
+}
+
+fn names_in(f: &FnUpdate, bn: &BooleanNetwork, out: &mut BTreeSet<String>) {
+    match f {
+        FnUpdate::Const(_) => {}
+        FnUpdate::Var(v) => {
+            out.insert(bn.get_variable_name(*v).clone());
+        }
+        FnUpdate::Param(p, args) => {
+            out.insert(bn.get_parameter(*p).get_name().clone());
+            for a in args {
+                names_in(a, bn, out);
+            }
+        }
+        FnUpdate::Not(x) => names_in(x, bn, out),
+        FnUpdate::Binary(_, l, r) => {
+            names_in(l, bn, out);
+            names_in(r, bn, out);
+        }
+    }
+}
+
+/// Run the converter on the network and check all C19 obligations.
+pub fn check(spec: &NetSpec) -> Option<String> {
+    let aeon = spec.to_aeon();
+    // the library must accept the input (otherwise it is not an "aeon network")
+    if BooleanNetwork::try_from(aeon.as_str()).is_err() {
+        return None;
+    }
+    let out = match cli::run(&cli::converter_bin(), &[], Some(&aeon), 30.0) {
+        Ok(o) => o,
+        Err(e) => return Some(format!("cannot run the converter: {e}")),
+    };
+    if out.timed_out {
+        return Some("converter hangs".into());
+    }
+    if out.code != Some(0) {
+        return Some(format!("converter fails (exit {:?}): {}", out.code, crate::report::truncate(&out.stderr, 200)));
+    }
+    let bn = match BooleanNetwork::try_from_bnet(&out.stdout) {
+        Ok(b) => b,
+        Err(e) => return Some(format!("output is not a bnet network: {e}; output: {}", crate::report::truncate(&out.stdout, 200))),
+    };
+    let n = spec.n();
+    // targets of the output (left column)
+    let targets: BTreeSet<String> = out.stdout.lines().skip(1).filter_map(|l| l.split_once(',').map(|(t, _)| t.trim().to_string())).filter(|t| !t.is_empty()).collect();
+    let should: BTreeSet<String> = (0..n).filter(|i| !spec.regulators(*i).is_empty() || spec.funcs[*i].is_some()).map(|i| spec.vars[i].clone()).collect();
+    if targets != should {
+        return Some(format!("targets of the output are {targets:?}, but the variables with a regulator or an update function are {should:?}"));
+    }
+    let interps = spec.all_interps();
+    for t in 0..n {
+        if !should.contains(&spec.vars[t]) {
+            continue;
+        }
+        let vid = match bn.as_graph().find_variable(&spec.vars[t]) {
+            Some(v) => v,
+            None => return Some(format!("variable {} missing in the output", spec.vars[t])),
+        };
+        let f = match bn.get_update_function(vid) {
+            Some(f) => f.clone(),
+            None => return Some(format!("target {} has no update function in the output", spec.vars[t])),
+        };
+        let mut names = BTreeSet::new();
+        names_in(&f, &bn, &mut names);
+        let fresh: Vec<String> = names.iter().filter(|x| !spec.vars.contains(x)).cloned().collect();
+        if fresh.len() > 16 {
+            return Some("too many fresh inputs".into());
+        }
+        // set of truth tables over the original variables as the fresh inputs range over all values
+        let mut got: BTreeSet<Vec<bool>> = BTreeSet::new();
+        for code in 0..(1u32 << fresh.len()) {
+            let mut table = vec![];
+            for s in 0..(1usize << n) {
+                let mut val: BTreeMap<String, bool> = BTreeMap::new();
+                for (i, v) in spec.vars.iter().enumerate() {
+                    val.insert(v.clone(), s >> i & 1 == 1);
+                }
+                for (j, x) in fresh.iter().enumerate() {
+                    val.insert(x.clone(), code >> j & 1 == 1);
+                }
+                match eval_fn(&f, &bn, &val) {
+                    Ok(b) => table.push(b),
+                    Err(e) => return Some(format!("update function of {} in the output: {e}", spec.vars[t])),
+                }
+            }
+            got.insert(table);
+        }
+        // expected: every instantiation of the input's unknown functions, regulation constraints dropped
+        let want: BTreeSet<Vec<bool>> = interps.iter().map(|i| (0..(1usize << n)).map(|s| spec.update(t, s, i)).collect()).collect();
+        if got != want {
+            return Some(format!(
+                "variable {}: the output function ranges over {} truth tables, the input's update function over {} (missing {}, extra {}); output line: {}",
+                spec.vars[t],
+                got.len(),
+                want.len(),
+                want.difference(&got).count(),
+                got.difference(&want).count(),
+                out.stdout.lines().find(|l| l.starts_with(&format!("{},", spec.vars[t]))).unwrap_or("")
+            ));
+        }
+        // fresh inputs must not be targets
+        for x in &fresh {
+            if targets.contains(x) {
+                return Some(format!("fresh input {x} is also a target"));
+            }
+        }
+    }
+    None
+}
+
+pub fn replay(case: &Value) -> Option<String> {
+    let spec: NetSpec = serde_json::from_value(case["net"].clone()).ok()?;
+    check(&spec)
+}
+
+/// Menu of (regulators, function) choices for variable `t` of an `n`-variable network.
+fn menu(t: usize, n: usize, rich: bool) -> Vec<(Vec<usize>, Option<Expr>)> {
+    let v = Expr::Var;
+    let call = |name: &str, args: Vec<usize>| Expr::Call(name.to_string(), args);
+    let others: Vec<usize> = (0..n).collect();
+    let mut m: Vec<(Vec<usize>, Option<Expr>)> = vec![(vec![], None), (vec![], Some(Expr::Const(true))), (vec![], Some(call("h", vec![])))];
+    for &x in &others {
+        m.push((vec![x], None));
+        m.push((vec![x], Some(Expr::not(v(x)))));
+        m.push((vec![x], Some(call("f", vec![x]))));
+        m.push((vec![x], Some(Expr::bin('|', call("f", vec![x]), call("h", vec![])))));
+        if rich {
+            m.push((vec![x], Some(v(x))));
+            m.push((vec![x], Some(Expr::bin('&', call("g", vec![x]), Expr::not(call("f", vec![x]))))));
+        }
+        for &y in &others {
+            if y <= x {
+                continue;
+            }
+            m.push((vec![x, y], None));
+            m.push((vec![x, y], Some(call("k", vec![x, y]))));
+            m.push((vec![x, y], Some(Expr::bin('&', call("f", vec![x]), call("g", vec![y])))));
+            if rich {
+                m.push((vec![x, y], Some(Expr::bin('^', v(x), v(y)))));
+                m.push((vec![x, y], Some(Expr::bin('|', v(x), Expr::not(v(y))))));
+                m.push((vec![x, y], Some(call("k", vec![y, x]))));
+                m.push((vec![x, y], Some(Expr::bin('>', call("f", vec![y]), Expr::bin('&', v(x), call("h", vec![]))))));
+            }
+        }
+    }
+    if n == 3 && rich {
+        m.push((vec![0, 1, 2], None));
+        m.push((vec![0, 1, 2], Some(Expr::bin('|', Expr::Call("k".into(), vec![0, 2]), Expr::bin('&', v(1), Expr::Call("f".into(), vec![t]))))));
+    }
+    m
+}
+
+fn build(n: usize, choice: &[(Vec<usize>, Option<Expr>)], constrained: bool) -> NetSpec {
+    let vars: Vec<String> = ["a", "b", "c"].iter().take(n).map(|s| s.to_string()).collect();
+    let mut regs = vec![];
+    let mut funcs = vec![];
+    for (t, (r, f)) in choice.iter().enumerate() {
+        for (j, &src) in r.iter().enumerate() {
+            let (sign, observable) = if constrained && j == 0 { (Sign::Pos, true) } else { (Sign::Unk, false) };
+            regs.push(Reg { src, dst: t, sign, observable });
+        }
+        funcs.push(f.clone());
+    }
+    NetSpec { vars, regs, funcs }
+}
+
+pub fn run(tier: &str) -> Result<Report, String> {
+    let mut rep = Report::new("C19", tier, "exploration");
+    if !cli::converter_bin().exists() {
+        return Err(format!("{} not built (./check builds it)", cli::converter_bin().display()));
+    }
+    let mut specs: Vec<NetSpec> = vec![];
+    for n in 1..=3usize {
+        let rich = n <= 2 || tier != "quick";
+        let menus: Vec<Vec<(Vec<usize>, Option<Expr>)>> = (0..n).map(|t| menu(t, n, rich && (n <= 2 || tier != "quick"))).collect();
+        let menus: Vec<Vec<(Vec<usize>, Option<Expr>)>> = if n == 3 { menus.into_iter().map(|m| m.into_iter().step_by(if tier == "quick" { 3 } else { 1 }).collect()).collect() } else { menus };
+        let sizes: Vec<usize> = menus.iter().map(|m| m.len()).collect();
+        let total: usize = sizes.iter().product();
+        for mut code in 0..total {
+            let mut choice = vec![];
+            for (t, s) in sizes.iter().enumerate() {
+                choice.push(menus[t][code % s].clone());
+                code /= s;
+            }
+            for constrained in [false, true] {
+                if constrained && (n == 3 || choice.iter().all(|(r, _)| r.is_empty())) {
+                    continue;
+                }
+                let spec = build(n, &choice, constrained);
+                if spec.well_formed() && spec.param_bits() <= 14 {
+                    specs.push(spec);
+                }
+            }
+        }
+    }
+    // name-clash sub-family: a variable named like a generated input
+    let mut clash_specs = vec![];
+    for (vars, regs, funcs) in [
+        (vec!["a", "f_1"], vec![(1usize, 0usize)], vec![Some(Expr::Call("f".into(), vec![1])), None]),
+        (vec!["a", "f_0"], vec![(0, 0), (1, 0)], vec![Some(Expr::bin('&', Expr::Call("f".into(), vec![0]), Expr::Var(1))), None]),
+        (vec!["a", "a_1"], vec![(1, 0)], vec![None, None]),
+        (vec!["b", "b_01"], vec![(0, 0), (1, 0)], vec![None, Some(Expr::Const(true))]),
+        // a zero-arity symbol named like a generated input of another symbol
+        (vec!["a", "b"], vec![(1, 0), (0, 1)], vec![Some(Expr::bin('&', Expr::Call("f".into(), vec![1]), Expr::Call("f_1".into(), vec![]))), Some(Expr::Var(0))]),
+        (vec!["a", "b"], vec![(1, 0), (0, 1)], vec![Some(Expr::Call("f".into(), vec![1])), Some(Expr::bin('|', Expr::Var(0), Expr::Call("f_0".into(), vec![])))]),
+        (vec!["a", "b"], vec![(1, 0), (0, 1), (1, 1)], vec![None, Some(Expr::bin('^', Expr::Call("a_1".into(), vec![]), Expr::bin('&', Expr::Var(0), Expr::Var(1))))]),
+    ] {
+        let spec = NetSpec {
+            vars: vars.iter().map(|s| s.to_string()).collect(),
+            regs: regs.iter().map(|(s, d)| Reg { src: *s, dst: *d, sign: Sign::Unk, observable: false }).collect(),
+            funcs,
+        };
+        if spec.well_formed() {
+            clash_specs.push(spec);
+        }
+    }
+    rep.set("networks_enumerated", json!(specs.len()));
+    rep.set("name_clash_networks", json!(clash_specs.len()));
+    specs.extend(clash_specs);
+    let res: Vec<(bool, Option<Violation>)> = specs
+        .par_iter()
+        .map(|spec| {
+            let accepted = BooleanNetwork::try_from(spec.to_aeon().as_str()).is_ok();
+            let v = check(spec).map(|w| Violation {
+                case: json!({"kind": "convert", "net": spec, "aeon": spec.to_aeon(), "name_clash": has_name_clash(spec)}),
+                what: format!("network [{}]: {w}", spec.to_aeon().replace('\n', "; ")),
+                size: spec.n() * 100 + spec.param_bits(),
+            });
+            (accepted, v)
+        })
+        .collect();
+    let mut accepted = 0u64;
+    for (a, v) in res {
+        if a {
+            accepted += 1;
+        }
+        if let Some(v) = v {
+            rep.add_count("failing_networks", 1);
+            if rep.violations.len() < 300 {
+                rep.violations.push(v);
+            }
+        }
+    }
+    rep.evaluations = specs.len() as u64;
+    rep.distinct_nontrivial = accepted;
+    rep.set("networks_accepted_by_the_library", json!(accepted));
+    rep.sample(json!({"aeon": specs[specs.len() / 2].to_aeon()}));
+    rep.sample(json!({"aeon": "a -?? b\nb -?? b\n$b: f(a) | h\n", "oracle": "as the fresh inputs range over all values, b's output function must range over exactly the 2 * 4 instantiations of f(a) | h"}));
+    rep.rule = "every network with 1..3 variables a,b,c whose variables each take one item of a menu (no regulator/no function; constants; zero-arity h; implicit function over 1, 2 (3) regulators; !x, x, x^y, x|!y; f(x); f(x)|h; g(x)&!f(x); k(x,y); k(y,x); f(x)&g(y); f(y)=>(x&h); ...; unconstrained and, for n<=2, constrained regulations; symbols shared between variables) that is well formed and accepted by the library, plus a name-clash sub-family (a variable named like a generated input). The convert-aeon-to-bnet binary built from the working tree is run on the aeon text; its output is re-loaded as bnet; for every target the set of truth tables over the original variables under all valuations of the fresh inputs must equal the set of truth tables of all instantiations of the input function (constraints dropped); targets = variables with a regulator or function; fresh inputs are no targets. distinct_nontrivial = networks accepted by the library".into();
+    rep.assumptions.push("biodivine-lib-param-bn's bnet parser is trusted for reading the converter's output; truth tables are evaluated by the harness's own evaluator".into());
+    Ok(rep)
+}
